@@ -3,6 +3,8 @@ CONSTANTS
  MaxPerHost = 2
  MaxHops = 3
  Cut = 40
+ Kinds = {"api", "storage"}
+ ActHosts = {"api", "api2", "other"}
  Fixed = TRUE
  Emit = FALSE
  CredSources = {"helper", "urluser"}
